@@ -274,12 +274,17 @@ class SimulationMaximumStep(SimulationWithJumpTimes):
         def _build_finer_grid_default(self, jump_times, jump_values):
             return jump_times, jump_values
 
+        # a step is split only when it exceeds epsilon by more than rounding: the repeated subtraction of epsilon below
+        # leaves a remainder of epsilon plus a few ulps when a gap is a multiple of epsilon, and splitting that remainder
+        # would insert a point at (numerically) the same time as the next one
+        threshold = epsilon * (1 + 1e-12)
+
         def _build_finer_grid(self, jump_times, jump_values):
             dts = np.diff(jump_times, prepend=0)
-            if not any(dts > epsilon):
+            if not any(dts > threshold):
                 return jump_times, jump_values
 
-            positions = np.flatnonzero(dts > epsilon)
+            positions = np.flatnonzero(dts > threshold)
             aug_dts = dts
             aug_jump_values = jump_values
             while positions.size > 0:
@@ -291,7 +296,7 @@ class SimulationMaximumStep(SimulationWithJumpTimes):
                     np.where(positions == 0, 0, aug_jump_values[..., positions - 1]),
                     axis=-1,
                 )
-                positions = np.flatnonzero(aug_dts > epsilon)
+                positions = np.flatnonzero(aug_dts > threshold)
             aug_jump_times = np.cumsum(aug_dts)
 
             return aug_jump_times, aug_jump_values
